@@ -64,6 +64,11 @@ func drawC02(rt *rapid.T, p *Plan, tier string) *Plan {
 	cp.Scenario = rapid.IntRange(0, 3).Draw(rt, "scenario") / 3 // 1 in 4 runs exercises reset
 	cp.ResetBack = rapid.IntRange(1, 6).Draw(rt, "resetback")
 	nh := rapid.IntRange(0, 2).Draw(rt, "nheaders")
+	if long {
+		// (headers run ahead of blocks more often and further: the in-memory header chain completes hash pages the
+		// flushed one has not reached while the garbage collection works on the pages behind)
+		nh = rapid.IntRange(1, 5).Draw(rt, "nheaderslong")
+	}
 	for i := 0; i < nh; i++ {
 		cp.HeadersAhead = append(cp.HeadersAhead, rapid.IntRange(0, len(p.Blocks)).Draw(rt, "hdrAt"))
 	}
@@ -139,7 +144,11 @@ func (r *run) runC02() {
 	for i, b := range chain {
 		if hdrAt[i] && V.BC.HeaderHeight() < b.Index {
 			var hs []*block.Header
-			for j := i; j < len(chain) && j < i+1+r.tape.Choose(3); j++ {
+			ahead := 1 + r.tape.Choose(3)
+			if len(chain) > 30 && r.tape.Chance(1, 2) {
+				ahead = 1 + r.tape.Choose(18)
+			}
+			for j := i; j < len(chain) && j < i+ahead; j++ {
 				hs = append(hs, &chain[j].Header)
 			}
 			if err := V.BC.AddHeaders(hs...); err != nil {
@@ -155,7 +164,11 @@ func (r *run) runC02() {
 			sim.Wait()
 			note()
 		}
-		if cp.ConcurrentFlush && r.tape.Chance(1, 3) {
+		// (the block whose header completes a header hash page always gets the concurrent flush: the page bookkeeping of
+		// the flush and of the garbage collection after it then sees the chain on both sides of the page boundary)
+		if V.BC.BlockHeight() >= b.Index {
+			// (delivered already, between the flush and the garbage collection of the previous round)
+		} else if cp.ConcurrentFlush && (r.tape.Chance(1, 3) || b.Index%16 == 15) {
 			// the flush runs concurrently with this AddBlock and lands at a tape-chosen place inside storeBlock
 			aerr, ferr := r.addBlockWithConcurrentFlush(V, r.raw[b.Index], V.Local.FlushGC)
 			if r.fail != nil {
@@ -197,8 +210,23 @@ func (r *run) runC02() {
 			flush = true
 		}
 		if flush {
-			if err := V.BC.VerifPersist(V.Local.FlushGC); err != nil {
+			// one flush in four (always before a block whose header completes a hash page) has the next block accepted
+			// between the flush and the garbage collection of the same round, as the Run loop allows
+			var between func()
+			var berr error
+			if V.Local.FlushGC && i+1 < len(chain) && (r.tape.Chance(1, 4) || chain[i+1].Index%16 == 15) {
+				nb := chain[i+1]
+				between = func() {
+					berr = V.AddBlockBytes(r.raw[nb.Index])
+					r.out.Probes["block_accepted_between_flush_and_gc"]++
+				}
+			}
+			if err := V.BC.VerifPersistWith(V.Local.FlushGC, between); err != nil {
 				r.violate(sim.Violatef("persist-error", "", "V flush after block %d: %v", b.Index, err))
+				return
+			}
+			if berr != nil {
+				r.violate(sim.Violatef("replica-rejected-block", "", "V (%+v) rejected valid block %d (between flush and garbage collection): %v", V.Local, b.Index+1, berr))
 				return
 			}
 			sim.Wait()
@@ -247,7 +275,20 @@ func (r *run) crashSweep(V *Node, chain []*block.Block, marks []mark, cp *CrashP
 	if cp.MaxPoints > 0 && len(points) > cp.MaxPoints {
 		// tape-chosen subset, always including the first and last
 		sel := map[int]bool{0: true, B: true}
-		for len(sel) < cp.MaxPoints {
+		// (the states right after a garbage collection batch are rare among all batch boundaries and special: up to six
+		// of them, tape-chosen, are always among the crash points)
+		var gcs []int
+		for k := 1; k <= B && k <= len(kinds); k++ {
+			if len(kinds[k-1]) > 2 && kinds[k-1][:2] == "gc" {
+				gcs = append(gcs, k)
+			}
+		}
+		for n := 0; n < 6 && len(gcs) > 0; n++ {
+			i := r.tape.Choose(len(gcs))
+			sel[gcs[i]] = true
+			gcs = append(gcs[:i], gcs[i+1:]...)
+		}
+		for len(sel) < cp.MaxPoints+6 {
 			sel[r.tape.Choose(B+1)] = true
 			if r.tape.Used > 4000 {
 				break
